@@ -1,6 +1,7 @@
 package main
 
 import (
+	"regexp"
 	"fmt"
 	"go/types"
 	"math"
@@ -725,6 +726,34 @@ func init() {
 				return ConstF32(math.Float32frombits(uint32(b.C.Uint64())))
 			}
 			return mk("to_fp_bits", F32, b)
+		},
+
+		// ---- regexp: the library is environment; patterns and subjects must be concrete ----
+		"regexp.Compile": func(w *W, s *State, args []Value) Value {
+			pat, ok := args[0].(StrV)
+			if !ok || !pat.IsConc() {
+				panic(execErr{"regexp.Compile of a symbolic pattern"})
+			}
+			w.e.noteModel("regexp:native on concrete pattern and subject")
+			if _, err := regexp.Compile(pat.S); err != nil {
+				return TupleV{[]Value{PtrV{Nil: true}, w.opaqueErr(s, err.Error())}}
+			}
+			return TupleV{[]Value{PtrV{Obj: w.e.alloc(s, StructV{[]Value{pat}})}, IfaceV{}}}
+		},
+		"(*regexp.Regexp).MatchString": func(w *W, s *State, args []Value) Value {
+			re := args[0].(PtrV)
+			if re.Nil {
+				panic(pathEnd{"panic: nil pointer dereference (regexp)"})
+			}
+			st, ok := w.load(s, re).(StructV)
+			if !ok || len(st.F) != 1 {
+				panic(execErr{"MatchString on a Regexp the engine did not compile"})
+			}
+			sub, ok := args[1].(StrV)
+			if !ok || !sub.IsConc() {
+				panic(execErr{"(*regexp.Regexp).MatchString of a symbolic subject"})
+			}
+			return ConstBool(regexp.MustCompile(st.F[0].(StrV).S).MatchString(sub.S))
 		},
 
 		// ---- math/rand ----
